@@ -416,6 +416,20 @@ class Composite(LexicalParent[Node], HasCreator, Node, ABC):
     def _run_args(self) -> tuple[tuple, dict]:
         return (), {}
 
+    def _run(self, executor, *args, **kwargs):
+        if executor is not None:
+            # A serialized copy cannot reach nodes outside of us; give our children the
+            # values they would fetch from there while we still can
+            self._fetch_child_inputs_from_outside()
+        return super()._run(executor, *args, **kwargs)
+
+    def _fetch_child_inputs_from_outside(self) -> None:
+        mine = {id(node) for node in self}
+        for node in self:
+            for channel in node.inputs:
+                if any(id(other.owner) not in mine for other in channel.connections):
+                    channel.fetch()
+
     def process_run_result(self, run_output):
         if run_output is not self:
             self._parse_remotely_executed_self(run_output)
